@@ -524,14 +524,20 @@ func (s *Sim) choose(ps []*gstate) *gstate {
 		}
 		return best
 	case PolStarve:
-		var cand []*gstate
+		// the victim runs when nothing else can, and otherwise only once in a
+		// while (1/48): slow, not dead - spinning pollers are always runnable, a
+		// victim that never ran would turn every polling protocol into a
+		// simulator-made livelock
+		var cand, vict []*gstate
 		for _, g := range ps {
 			if !s.isVictim(g) {
 				cand = append(cand, g)
+			} else {
+				vict = append(vict, g)
 			}
 		}
-		if len(cand) == 0 {
-			cand = ps
+		if len(cand) == 0 || (len(vict) > 0 && s.next()%48 == 0) {
+			return vict[int(s.next()%uint64(len(vict)))]
 		}
 		return cand[int(s.next()%uint64(len(cand)))]
 	case PolBurst:
